@@ -445,6 +445,7 @@ def run_case(case):
             # closing phase: everyone back, healed; lagging / restarted nodes must reach equality (entries or snapshot)
             op_opengate(0, 0, 0)
             sim.blocked = set()
+            sim.quiet_config()
             for n in list(sim.dead_voters()):
                 sim.op_restart(0, 0, 0)
                 sim.check(light=True)
